@@ -38,6 +38,7 @@ type sifDriver struct {
 	S, R    []*types.Validator
 	mode    map[uint64]string        // height -> how it was decided ("regular", "recover-timer", "recover-proposal")
 	block   map[uint64]types.BlockID // height -> what the node committed
+	round   map[uint64]int           // height -> the round it was decided in
 	hist    []string
 	salt    uint64
 	recBase int // the round the node was in when it entered recover mode at the current height
@@ -145,23 +146,16 @@ func (d *sifDriver) backing(c *types.Commit, force []*types.Validator, h uint64,
 
 // proposal builds a block of the node's current height on the node's own chain, with the given LastCommit, signed as a
 // proposal for the node's current round by the round's proposer (a puppet).
-func (d *sifDriver) proposal(lastCommit *types.Commit) ([]consensus.ConsensusMessage, *types.Block) {
-	rs := d.x.CS.GetRoundState()
-	st := d.x.CS.GetState()
-	h, r := rs.Height, rs.Round
-	signer := d.keyOf(rs.Validators.GetProposer().Address)
+// blockOn builds a block of height h on top of the given status, with the given LastCommit.
+func (d *sifDriver) blockOn(st consensus.NewStatus, h uint64, signer *consim.ValKey, lastCommit *types.Commit, recoverCount uint32) *types.Block {
 	b := d.x.App.CreateBlock(h, 0, st.ConsensusParams.BlockSize.MaxGas, uint64(time.Now().Unix()))
 	if b == nil || signer == nil {
-		return nil, nil
+		return nil
 	}
 	d.salt++
 	b.Header.GasUsed = 5000 + d.salt
 	b.Header.Coinbase = signer.CoinBase
-	recovering := d.x.CS.VerifStepRecover()
-	if recovering {
-		// the header counts the rounds the height has spent in recover mode (a block with another count is dropped)
-		b.Recover = uint32(r - d.recBase)
-	}
+	b.Recover = recoverCount
 	b.ChainID = st.ChainID
 	b.LastCommit = lastCommit
 	b.LastBlockID = st.LastBlockID
@@ -184,6 +178,26 @@ func (d *sifDriver) proposal(lastCommit *types.Commit) ([]consensus.ConsensusMes
 		}
 	}
 	b.EvidenceHash = b.Evidence.Hash()
+	return b
+}
+
+// proposal builds a block of the node's current height on the node's own chain, with the given LastCommit, signed as a
+// proposal for the node's current round by the round's proposer (a puppet).
+func (d *sifDriver) proposal(lastCommit *types.Commit) ([]consensus.ConsensusMessage, *types.Block) {
+	rs := d.x.CS.GetRoundState()
+	st := d.x.CS.GetState()
+	h, r := rs.Height, rs.Round
+	signer := d.keyOf(rs.Validators.GetProposer().Address)
+	recovering := d.x.CS.VerifStepRecover()
+	var rc uint32
+	if recovering {
+		// the header counts the rounds the height has spent in recover mode (a block with another count is dropped)
+		rc = uint32(r - d.recBase)
+	}
+	b := d.blockOn(st, h, signer, lastCommit, rc)
+	if b == nil {
+		return nil, nil
+	}
 	parts := b.MakePartSet(consim.PartSize)
 	p := types.NewProposal(h, r, parts.Header(), -1, types.BlockID{})
 	p.Type = types.ProposalTypeNormal
@@ -338,7 +352,7 @@ func runSetInForce(t *rapid.T) {
 		t.Fatalf("node: %v", err)
 	}
 	defer n.Close()
-	d := &sifDriver{t: t, n: n, x: x, keys: keys, S: S, R: R, mode: map[uint64]string{}, block: map[uint64]types.BlockID{}}
+	d := &sifDriver{t: t, n: n, x: x, keys: keys, S: S, R: R, mode: map[uint64]string{}, block: map[uint64]types.BlockID{}, round: map[uint64]int{}}
 	desc := func(vals []*types.Validator) string {
 		var s []string
 		for _, v := range vals {
@@ -361,8 +375,60 @@ func runSetInForce(t *rapid.T) {
 			break
 		}
 		h := x.CS.GetRoundState().Height
-		mode := rapid.SampledFrom([]string{"regular", "regular", "recover-timer", "recover-timer", "recover-proposal"}).Draw(t, "mode")
+		mode := rapid.SampledFrom([]string{"regular", "regular", "recover-timer", "recover-timer", "recover-proposal", "local-recover-then-sync"}).Draw(t, "mode")
 		d.recBase = x.CS.GetRoundState().Round
+		if mode == "local-recover-then-sync" {
+			// Only THIS node saw no block for 15 minutes (it was cut off): it enters recover mode on its own while the others go on
+			// deciding regular blocks.  When it hears how far behind it is, its reactor stops and resets the state machine
+			// (SwitchToFastSync), the block-sync reactor commits the missed blocks (CommitBlock with fastsync, ApplyBlock), and the
+			// machine is switched back with the synced status (SwitchToConsensus).  The heights it missed were decided by S.
+			n.RecoverTimeout(x)
+			wasRecovering := x.CS.VerifStepRecover()
+			x.CS.OnReset()
+			st := x.CS.GetState()
+			synced := rapid.IntRange(1, 2).Draw(t, "synced")
+			okSync := true
+			for j := 0; j < synced && okSync; j++ {
+				hh := st.LastBlockHeight + 1
+				last := &types.Commit{}
+				if hh > 1 {
+					all := map[string]bool{}
+					for _, v := range d.inForce(hh - 1) {
+						all[string(v.Address)] = true
+					}
+					last = d.commitFor(d.inForce(hh-1), all, hh-1, d.round[hh-1], d.block[hh-1])
+				}
+				signer := d.keyOf(st.Validators.GetProposer().Address)
+				blk := d.blockOn(st, hh, signer, last, 0)
+				if blk == nil {
+					okSync = false
+					break
+				}
+				parts := blk.MakePartSet(consim.PartSize)
+				id := types.BlockID{Hash: blk.Hash(), PartsHeader: parts.Header()}
+				all := map[string]bool{}
+				for _, v := range d.S {
+					all[string(v.Address)] = true
+				}
+				seen := d.commitFor(d.S, all, hh, 0, id)
+				vals, err := x.App.CommitBlock(blk, parts, seen, true)
+				if err != nil {
+					t.Fatalf("block sync: CommitBlock: %v\n%s", err, d.history())
+				}
+				nst, err := x.BlockExec.ApplyBlock(st, id, blk, vals)
+				if err != nil {
+					t.Fatalf("block sync: ApplyBlock of an honest block decided by S fails: %v\n%s", err, d.history())
+				}
+				st = nst
+				d.mode[hh], d.block[hh], d.round[hh] = "regular", id, 0
+			}
+			if rec := x.CS.VerifSwitchToConsensus(st); rec != nil {
+				t.Fatalf("SwitchToConsensus panics: %v\n%s", rec, d.history())
+			}
+			d.logf("height %d: the node alone entered recover mode (%v), was reset, block-synced %d regular block(s) and switched back at height %d", h, wasRecovering, synced, st.LastBlockHeight+1)
+			vstat.Label("local_recover_then_block_sync")
+			continue
+		}
 		d.mode[h] = "regular"
 		switch mode {
 		case "recover-timer":
@@ -421,7 +487,7 @@ func runSetInForce(t *rapid.T) {
 				id := types.BlockID{Hash: rs.ProposalBlock.Hash(), PartsHeader: rs.ProposalBlockParts.Header()}
 				d.logf("height %d round %d: the node proposes %s", h, r, id.Hash.Hex()[:10])
 				if d.decide(id, force, false) {
-					d.block[h] = id
+					d.block[h], d.round[h] = id, r
 					decided = true
 				} else if !d.nilRound() {
 					break
@@ -516,7 +582,7 @@ func runSetInForce(t *rapid.T) {
 			}
 			if backed {
 				if d.decide(id, force, false) {
-					d.block[h] = id
+					d.block[h], d.round[h] = id, r
 					decided = true
 				} else if x.Crashed == nil && !d.nilRound() {
 					break
